@@ -1,10 +1,8 @@
 package main
 
 import (
-	"bytes"
 	"context"
 	"errors"
-	"io"
 
 	blocks "github.com/ipfs/go-block-format"
 	"github.com/ipfs/go-cid"
@@ -17,6 +15,8 @@ import (
 // loader kinds: 1 = internal carv1.LoadCar (verif hooks), 2 = root-module car.LoadCar
 // fast: the store also has a PutMany method (loadCarFast); fail: -1 = the store never fails,
 // k >= 0 = store call number k (Put or PutMany, counted together) returns an error.
+// An optional 8th input field is the delivery pattern of the source (k_scan.go srcMode*; the model
+// ignores it).
 
 var errC02xStore = errors.New("c02x: injected store failure")
 
@@ -56,11 +56,8 @@ func c02xLoadObs(calls [][]blocks.Block, roots []cid.Cid, err error) Val {
 	return VL{cv, VL{VT("ok"), cidsVal(roots)}}
 }
 
-func c02xRunLoadImpl(kind uint64, fast bool, failAt int, file []byte, plain bool) Val {
-	var r io.Reader = bytes.NewReader(file)
-	if plain {
-		r = plainReader{r}
-	}
+func c02xRunLoadImpl(kind uint64, fast bool, failAt int, file []byte, mode int) Val {
+	r := c02xSource(file, mode)
 	st := &c02xBatchStore{c02xStore{failAt: failAt}}
 	switch kind {
 	case 1:
@@ -104,6 +101,10 @@ func init() {
 		if fl := l[2].(VL); len(fl) > 0 {
 			failAt = int(fl[0].(VN))
 		}
-		return c02xRunLoadImpl(uint64(l[0].(VN)), l[1].(VN) != 0, failAt, []byte(l[3].(VB)), false)
+		mode := srcModeBytes
+		if len(l) > 7 {
+			mode = int(l[7].(VN))
+		}
+		return c02xRunLoadImpl(uint64(l[0].(VN)), l[1].(VN) != 0, failAt, []byte(l[3].(VB)), mode)
 	})
 }
